@@ -221,6 +221,7 @@ class Run:
             t = self.loop.create_task(child())
             self.owner_of[path] = None
         self.tasks[path] = t
+        t.add_done_callback(lambda _t, path=path: self.ev("task_done", path, cancelled=_t.cancelled()))
         self.ev("spawn", path, via=op["via"], owner=owner)
 
     def scope_kwargs(self, op, path):
@@ -364,6 +365,7 @@ def execute(prog, inject_at=None, releases=(), run_cls=Run, after=None):
         except BaseException as exc:  # noqa: BLE001 - the program's own outcome
             res = ("raise", exc)
         holder["victim_cancelling"] = vt.cancelling()
+        run.ev("victim_done", ())
         if after is not None:
             await after(run)
         # quiescence for everything the harness owns: let spawned tasks finish (gates are released by plan only)
